@@ -78,13 +78,15 @@ PROPS = {
     ),
     "C02": dict(
         title="Built records carry truthful Content-Length, digests and record ids",
-        lean_modules=["Gowarc.Props.C02", "Gowarc.Props.C02e2e", "Gowarc.Props.C02len"],
+        lean_modules=["Gowarc.Props.C02", "Gowarc.Props.C02e2e", "Gowarc.Props.C02len", "Gowarc.Props.C02dig"],
         audit_namespaces=["Gowarc.Props.C02"],
         n_quick=3000, n_thorough=40000,
         required_theorems=["C02_added_digest", "C02_http_split", "C02_default_digest", "C02_validate_truthful", "C02_build_truthful", "checkDigest_post", "parseBlock_keepsCL",
                            "C02_validate_payload", "C02_http_payload", "checkDigest_has_other",
-                           "C02_length_every_policy", "parseBlock_length", "validateDigest_length", "checkDigest_get_other"],
+                           "C02_length_every_policy", "parseBlock_length", "validateDigest_length", "checkDigest_get_other",
+                           "C02_digests_every_policy", "validateDigest_adds", "parseBlock_digests", "parseBlock_onlyCL", "newDigest_default_empty"],
         model_assumptions=["record ids come from the configured id function; uniqueness of uuid.New is an assumption (randomness), only well-formedness is checked",
+                           "C02_digests_every_policy: when the caller declared neither digest field and add-missing-digest is on, under EVERY policy setting (spec checking off included) and every repair option the returned record's WARC-Block-Digest is name:encode(H alg (exactly the serialized block bytes)) and, for blocks with a payload on records that are neither revisits nor segmented, WARC-Payload-Digest is the same rendering of exactly the payload bytes, in the configured default algorithm and encoding",
                            "C02_length_every_policy: the Content-Length the builder adds itself equals the number of block bytes that get serialized under EVERY policy setting (spec checking off included), every repair option, every block kind and content (shorter than 2^63 - 2 bytes): through the HTTP-terminator repair (+2), the warc-fields block repair (adjusted in Build, fix 06457a1) and ValidateDigest",
                            "C02_validate_payload: after ValidateDigest (spec warn/fail, default repairs) the WARC-Payload-Digest field is the rendering of the digest of exactly the payload bytes (HTTP: the bytes after the protocol header, C02_http_payload) or a declared value that decodes to it", "see level_note"],
         design_ref="DESIGN.md section 5, C02",
